@@ -43,6 +43,14 @@ def run(m, keep=False):
         got = {0: "pass", 1: "violation", 2: "undecided", 3: "broken"}.get(r.returncode, f"exit{r.returncode}")
         ok = got == expect
         detail = ""
+        import glob
+        reps = []
+        for f in glob.glob(os.path.join(out, "replays", prop, "*.json")):
+            d = json.load(open(f))
+            nr = d.get("native_replay") or {}
+            reps.append(("confirmed" if nr.get("confirmed") else "unconfirmed") + (": " + str(nr.get("note") or nr.get("state_mismatch") or nr.get("observed"))[:160] if os.environ.get("MUT_VERBOSE") else ""))
+        if reps:
+            detail += "  [replays: " + "; ".join(sorted(reps)) + "]"
         if not ok:
             detail = "\n    " + "\n    ".join(r.stdout.strip().splitlines()[-6:])
         return name, f"{prop}: expected {expect}, got {got}{detail}", ok
